@@ -225,7 +225,7 @@ claim("C20", "model_checking",
       "tokens(d) = <<fm>> + tokens(rest) shifted for valid blocks, unchanged parse for invalid ones.", DOCS_NOTE % "C20",
       "TLA+ Ext inertness relation + Obs trace validation over extension subsets")
 
-READY = {"C01", "C02", "C03", "C04", "C05", "C06", "C07", "C08", "C09", "C10", "C11", "C12", "C13", "C14", "C15", "C16", "C17", "C18", "C19"}
+READY = {"C01", "C02", "C03", "C04", "C05", "C06", "C07", "C08", "C09", "C10", "C11", "C12", "C13", "C14", "C15", "C16", "C17", "C18", "C19", "C20"}
 PENDING_REASON = "check is built (vh/checks) but its known-finding table for the pinned tree is still being harvested; not claimed until it is stable under every VERIF_SEED"
 
 # ---------------------------------------------------------------------------------------------
